@@ -142,13 +142,21 @@ def optField (k : Bytes) : Option JVal → List (Bytes × JVal)
   | none => []
   | some v => [(k, v)]
 
+def encPostingsJ : Option (List Posting) → JVal
+  | none => .null
+  | some ps => .arr (ps.map encPostingJ)
+
+def encOptNatJ : Option Nat → JVal
+  | none => .null
+  | some n => .num n
+
 /-- `Transaction.MarshalJSON` without the derived members -/
 def encTransactionJ (tx : Transaction) : JVal :=
-  .obj ([(b!"postings", match tx.postings with | none => .null | some ps => .arr (ps.map encPostingJ)),
+  .obj ([(b!"postings", encPostingsJ tx.postings),
          (b!"metadata", encMetadataJ tx.metadata),
          (b!"timestamp", .time tx.timestamp)] ++
         (if tx.reference = [] then [] else [(b!"reference", encStr tx.reference)]) ++
-        [(b!"id", match tx.id with | none => .null | some n => .num n),
+        [(b!"id", encOptNatJ tx.id),
          (b!"insertedAt", .time tx.insertedAt),
          (b!"updatedAt", .time tx.updatedAt)] ++
         optField b!"revertedAt" (tx.revertedAt.map .time) ++
@@ -301,14 +309,14 @@ def decOptTime : Option JVal → Except DecodeErr (Option Date)
     | .ok d => .ok (some d)
     | .error e => .error e
 
+def decPostingsOpt : JVal → Except DecodeErr (Option (List Posting))
+  | .null => .ok none
+  | .arr xs => (match decPostings xs with | .ok ps => .ok (some ps) | .error e => .error e)
+  | _ => .error (.shape "postings")
+
 def decTransaction : JVal → Except DecodeErr Transaction
   | .obj kvs =>
-    let postings : Except DecodeErr (Option (List Posting)) :=
-      match fieldOr kvs b!"postings" with
-      | .null => .ok none
-      | .arr xs => (match decPostings xs with | .ok ps => .ok (some ps) | .error e => .error e)
-      | _ => .error (.shape "postings")
-    match postings, decMetadata (fieldOr kvs b!"metadata"), decTime (fieldOr kvs b!"timestamp"),
+    match decPostingsOpt (fieldOr kvs b!"postings"), decMetadata (fieldOr kvs b!"metadata"), decTime (fieldOr kvs b!"timestamp"),
           decStr (fieldOr kvs b!"reference"), decUint64 (fieldOr kvs b!"id") with
     | .ok ps, .ok md, .ok ts, .ok ref, .ok id =>
       match decTime (fieldOr kvs b!"insertedAt"), decTime (fieldOr kvs b!"updatedAt"),
